@@ -147,3 +147,5 @@ pub fn guarded<T>(f: impl FnOnce() -> T) -> Result<T, String> {
         Err(_) => Err(last_panic()),
     }
 }
+
+pub mod rm;
